@@ -1527,4 +1527,6 @@ func TestVerifC12(t *testing.T) {
 		r := rnd.Fork(uint64(200000 + i))
 		c12SessHistory(t, out, r, users, "random", 6+r.Intn(25), nil)
 	}
+	// round 5: requests running concurrently (zz_verif_C12conc_test.go)
+	c12Concurrent(t, out, rnd.Fork(400000), users)
 }
